@@ -24,6 +24,10 @@ pub struct Case {
     pub https_proxy: Option<ProxySpec>,
     /// indices into `urls`: their hosts are put on the no-proxy list
     pub no_proxy: Vec<u8>,
+    /// 1 / 2: the caller adds a Host field of its own before / after the other builder operations; every hop's Host still
+    /// belongs to that hop's URL and no other field is lost
+    #[serde(default)]
+    pub caller_host: u8,
 }
 
 pub struct C10;
@@ -89,8 +93,9 @@ non-trivial = >= 2 hops with a non-empty body, or a hop that changes authority o
             prop_oneof![1 => Just(None), 1 => proxy_spec().prop_map(Some)],
             proptest::collection::vec(0u8..6, 0..3),
             proptest::collection::vec(prop::bool::weighted(0.3), 6),
+            prop_oneof![4 => Just(0u8), 1 => Just(1u8), 1 => Just(2u8)],
         )
-            .prop_map(|(method, mut urls, statuses, ops, body, http_proxy, https_proxy, no_proxy, flips)| {
+            .prop_map(|(method, mut urls, statuses, ops, body, http_proxy, https_proxy, no_proxy, flips, caller_host)| {
                 // some hops keep the host of the previous hop and change only the scheme (the proxy choice depends on both)
                 for i in 1..urls.len() {
                     if flips[i] && !matches!(urls[i - 1].host, HostSpec::V6(_)) {
@@ -109,6 +114,7 @@ non-trivial = >= 2 hops with a non-empty body, or a hop that changes authority o
                     http_proxy,
                     https_proxy,
                     no_proxy,
+                    caller_host,
                 }
             })
             .boxed()
@@ -152,7 +158,10 @@ non-trivial = >= 2 hops with a non-empty body, or a hop that changes authority o
             .max_redirections(10);
         let mut model: HeaderModel = BTreeMap::new();
         let mut params = vec![];
+        let rb = if case.caller_host == 1 { rb.header("Host", "caller.invalid") } else { rb };
         let rb = apply_ops(rb, &case.ops, &mut model, &mut params);
+        let rb = if case.caller_host == 2 { rb.header("host", "caller.invalid:81") } else { rb };
+        ctx.label_if(case.caller_host != 0, "caller-supplied-host-field");
         let sent = send_with_body(rb, &case.body);
         model_set(&mut model, "accept-encoding", b"gzip, deflate".to_vec());
         model_set(&mut model, "connection", b"close".to_vec());
